@@ -1,6 +1,6 @@
-import Qentem.Proofs.TmplIifParse
+import Qentem.Proofs.TmplSvarParse
 /-!
-# C02 stage 7/8 — trees of segments, inline `{if}`s, `<if>` chains and `<loop>`s: the parse
+# C02 stage 7/8/9 — trees of segments, inline `{if}`s, super variables, `<if>` chains and `<loop>`s: the parse
 -/
 set_option linter.unusedSectionVars false
 set_option linter.unusedVariables false
@@ -19,6 +19,7 @@ inductive GT where
   | ifc (e : List Nat) (body : GTs) (tail : GTail)
   | loop (S V : List Nat) (body : GTs)
   | iif (e : List Nat) (ts fs : Option (List Seg))
+  | svar (path : List Nat) (args : List Seg)
 inductive GTs where
   | nil
   | cons (b : GT) (r : GTs)
@@ -34,6 +35,7 @@ def printGT : GT → List Nat
   | .ifc e body tail => IFOPEN ++ e ++ [34, 62] ++ printGTs body ++ printGTail tail
   | .loop S V body => LOOPW ++ (hdrOf S V ++ ([62] ++ (printGTs body ++ LOOPEND)))
   | .iif e ts fs => printIif e ts fs
+  | .svar pa ar => printSvar pa ar
 def printGTs : GTs → List Nat
   | .nil => []
   | .cons b r => printGT b ++ printGTs r
@@ -49,6 +51,7 @@ def GT.toTpls : GT → List Tpl
   | .ifc e body tail => [.ifc ((some e, gtsTpl body) :: tailBrG tail)]
   | .loop S V body => [.loop S V (gtsTpl body)]
   | .iif e ts fs => [.iif e (ts.map segsTpl) (fs.map segsTpl)]
+  | .svar pa ar => [.svar pa (segsTpl ar)]
 def gtsTpl : GTs → List Tpl
   | .nil => []
   | .cons b r => b.toTpls ++ gtsTpl r
@@ -73,6 +76,9 @@ theorem printGT_eq : ∀ (b : GT), printList b.toTpls = printGT b
     cases ts <;> cases fs <;>
       simp [GT.toTpls, printGT, printList, printTpl, printIif, attrText, IIF1, TRUEA, FALSEA, str, printSegs_eq,
         List.append_assoc]
+  | .svar pa ar => by
+    simp only [GT.toTpls, printGT, printList, printTpl, printArgs_segs, printSvar, SVAR1]
+    simp [str, List.append_assoc]
 theorem printGTs_eq : ∀ (bs : GTs), printList (gtsTpl bs) = printGTs bs
   | .nil => rfl
   | .cons b r => by simp only [gtsTpl, printGTs, printList_append, printGT_eq b, printGTs_eq r]
@@ -96,6 +102,8 @@ def GT.ok : GT → Prop
   | .loop S V body => HdrOk S V ∧ GTs.ok body
   | .iif e ts fs => MathOk e ∧ (∀ x ∈ e, x ≠ 34) ∧ ValOk ts ∧ ValOk fs ∧ (ts ≠ none ∨ fs ≠ none) ∧
       (printIif e ts fs).length < 65536
+  | .svar pa ar => plainL pa ∧ (∀ x ∈ pa, x ≠ 44) ∧ 0 < pa.length ∧ pa.length ≤ 255 ∧
+      (∀ a ∈ ar, a.ok ∧ a.isArg) ∧ ar ≠ [] ∧ ar.length ≤ 10
 def GTs.ok : GTs → Prop
   | .nil => True
   | .cons b r => GT.ok b ∧ GTs.ok r
@@ -112,6 +120,7 @@ def costGT : GT → Nat
   | .ifc _ body tail => 1 + costGTs body + costGTail tail
   | .loop _ _ body => 1 + costGTs body + 1
   | .iif _ ts fs => 2 + nTagsVal ts + nTagsVal fs
+  | .svar _ ar => 2 + nTags (argSegs ar)
 def costGTs : GTs → Nat
   | .nil => 0
   | .cons b r => costGT b + costGTs r
@@ -135,6 +144,7 @@ def tagsGT (cfg : ScanCfg R) (c : List Nat) (D : List LoopD) (dep : Nat) (p : Na
       { loopFG D p (trunc bits_LoopTag_Level dep) S V with
         endOff := p + 6 + (hdrOf S V).length + (printGTs body).length }]
   | .iif e ts fs => [iifTag cfg c D p e ts fs]
+  | .svar pa ar => [svarTag cfg c D p pa ar]
 def tagsGTs (cfg : ScanCfg R) (c : List Nat) (D : List LoopD) (dep : Nat) (p : Nat) : GTs → List (Tag R)
   | .nil => []
   | .cons b r => tagsGT cfg c D dep p b ++ tagsGTs cfg c D dep (p + (printGT b).length) r
@@ -279,6 +289,13 @@ theorem parse_gt (cfg : ScanCfg R) (c : List Nat) (hn : c.length + 16 < 42949672
     obtain ⟨he, he34, hts, hfs, hone, hsz⟩ := hok
     simp only [printGT] at hc hfin
     have := parse_iif cfg c hn D hD stk e ts fs pre post acc fuel o m o' m' hc he he34 hts hfs hone hsz hnext hfin
+    simpa [costGT, tagsGT, stAtL, stAtC] using this
+  | .svar pa ar, D, stk, pre, post, acc, fuel, o, m, o', m', hc, hok, hD, hnext, hfin => by
+    simp only [GT.ok] at hok
+    obtain ⟨hp, hp44, hp0, hp255, hargs, hne, _⟩ := hok
+    simp only [printGT] at hc hfin
+    have := parse_svar cfg c hn D hD stk pa ar pre post acc fuel o m o' m' hc hp hp44 hp0 hp255
+      (fun a ha => (hargs a ha).1) hne hnext hfin
     simpa [costGT, tagsGT, stAtL, stAtC] using this
 theorem parse_gts (cfg : ScanCfg R) (c : List Nat) (hn : c.length + 16 < 4294967296) :
     ∀ (bs : GTs) (D : List LoopD) (stk : List (Frame R)) (pre post : List Nat) (acc : List (Tag R)) (fuel o m o' m' : Nat),
@@ -458,6 +475,9 @@ theorem costGT_le : ∀ (b : GT), costGT b ≤ (printGT b).length
       | none => simp [nTagsVal, fLen]
       | some l => have := nTags_le l; simp only [nTagsVal, fLen]; omega
     simp only [costGT, printGT, printIif_len]; omega
+  | .svar pa ar => by
+    have := nTags_le (argSegs ar)
+    simp only [costGT, printGT, printSvar_len]; omega
 theorem costGTs_le : ∀ (bs : GTs), costGTs bs ≤ (printGTs bs).length
   | .nil => by simp [costGTs]
   | .cons b r => by
